@@ -13,7 +13,10 @@ import (
 	"fmt"
 	"os"
 	"reflect"
+	"sort"
 	"strings"
+
+	"github.com/ipfs/ipfs-cluster/api"
 
 	"verifharness/c08/wire"
 	"verifharness/common"
@@ -28,6 +31,9 @@ type rtCase struct {
 func genRT(r *common.Rng, k int) rtCase {
 	// Pin and PinOptions get half of the cases; the rest is spread over the other records.
 	var rec *wire.Record
+	if r.Chance(1, 25) {
+		return genSnapshot(r)
+	}
 	switch x := r.Intn(10); {
 	case x < 4:
 		rec = wire.RecordByName("Pin")
@@ -38,6 +44,32 @@ func genRT(r *common.Rng, k int) rtCase {
 	}
 	format := rec.Formats[r.Intn(len(rec.Formats))]
 	return rtCase{rec, format, wire.Gen(r, rec)}
+}
+
+// genSnapshot: 0-5 pins with distinct defined CIDs, sorted by CID token (the order both sides are listed in).
+func genSnapshot(r *common.Rng) rtCase {
+	n := r.Intn(6)
+	perm := make([]int, wire.NCids)
+	for i := range perm {
+		perm[i] = i
+	}
+	for i := len(perm) - 1; i > 0; i-- {
+		j := r.Intn(i + 1)
+		perm[i], perm[j] = perm[j], perm[i]
+	}
+	snap := wire.Snapshot{}
+	pinRec := wire.RecordByName("Pin")
+	wire.Clean = r.Chance(4, 5)
+	defer func() { wire.Clean = false }()
+	for i := 0; i < n; i++ {
+		p := wire.Gen(r, pinRec).Interface().(api.Pin)
+		p.Cid = common.CidN(perm[i])
+		snap.Pins = append(snap.Pins, p)
+	}
+	sort.Slice(snap.Pins, func(i, j int) bool { return wire.CidTok(snap.Pins[i].Cid) < wire.CidTok(snap.Pins[j].Cid) })
+	v := reflect.New(wire.SnapshotRecord.Type).Elem()
+	v.Set(reflect.ValueOf(snap))
+	return rtCase{&wire.SnapshotRecord, wire.FSnapshot, v}
 }
 
 func runRT(out *common.Out, c rtCase) {
